@@ -1,6 +1,6 @@
 (* C28 — property theorems only: each closed by [exact lemma], followed by Print Assumptions. *)
 From Coq Require Import List NArith ZArith Bool RelationClasses Permutation.
-From Verif Require Import Common.GoStr C28.Model C28.Proof C28.MapProof.
+From Verif Require Import Common.GoStr C28.Model C28.Proof C28.MapProof C28.Named.
 Import ListNotations.
 
 (* identical returns for all type terms: with fuel >= size x + size y the answer is a boolean and the
@@ -60,6 +60,20 @@ Theorem C28_map_refines_assoc_generic : forall (K : Type) (eqv : K -> K -> bool)
 Proof. exact map_refines_assoc. Qed.
 Print Assumptions C28_map_refines_assoc_generic.
 
+(* named types are compared by the identity of their type name, whatever their underlying types are: two
+   different names are different types even when their underlying types are structurally identical *)
+Theorem C28_named_by_identity : forall a b, identb (TNamed a) (TNamed b) = true <-> a = b.
+Proof. exact identb_named_iff. Qed.
+Print Assumptions C28_named_by_identity.
+
+(* ... and so are the named interfaces embedded in an interface literal (e.Obj() != f.Obj()): identical interface
+   literals embed the same type names in the same order - interface{Reader} and interface{Writer} are different
+   types even if Reader and Writer have the same method set (their hashes differ too: hashFor hashes the names) *)
+Theorem C28_embedded_by_identity : forall ms es ms' es',
+  identb (TIface ms es) (TIface ms' es') = true -> es = es'.
+Proof. exact identb_iface_embs. Qed.
+Print Assumptions C28_embedded_by_identity.
+
 (* ---- the hypotheses are satisfiable on non-trivial values ---- *)
 Definition ex_env : env := [(1%N, [([77%N], Some [112%N])])].                 (* E1 = interface{ p.M() } *)
 Definition ex_E1u : ty := TIface [mkMeth true [77%N] (Some [112%N]) None [] [] false] [].
@@ -85,3 +99,16 @@ Example C28_example_map :
             [OSet (ex_k 112) 1%Z; OSet (ex_k 113) 2%Z; ODel (ex_k 113); OAt (ex_k 112); OSet ex_x 3%Z; OAt ex_y; OLen])
      = [RPrev None; RPrev None; RDel true; RVal (Some 1%Z); RPrev None; RVal (Some 3%Z); RLen 2%Z].
 Proof. split; [repeat constructor|]. vm_compute. repeat split. Qed.
+
+(* Reader = id 1 and Writer = id 2 have the same method set {p.M()} (ex_env2); interface{Reader} / interface{Writer}
+   with the inherited method are well formed, have identical method lists, and are NOT identical; neither are
+   []interface{Reader} / []interface{Writer} nor func(interface{Reader}) / func(interface{Writer}) *)
+Definition ex_env2 : env := [(1%N, [([77%N], Some [112%N])]); (2%N, [([77%N], Some [112%N])])].
+Definition ex_emb (id : N) : ty := TIface [mkMeth false [77%N] (Some [112%N]) (Some ex_E1u) [] [] false] [id].
+Example C28_example_embedded_clone :
+  wfb ex_env2 (ex_emb 1) = true /\ wfb ex_env2 (ex_emb 2) = true
+  /\ identb (ex_emb 1) (ex_emb 1) = true /\ identb (ex_emb 1) (ex_emb 2) = false
+  /\ identb (TSlice (ex_emb 1)) (TSlice (ex_emb 2)) = false
+  /\ identb (TSig None [ex_emb 1] [] false) (TSig None [ex_emb 2] [] false) = false
+  /\ identb (TNamed 1) (TNamed 2) = false.
+Proof. vm_compute. repeat split. Qed.
